@@ -317,6 +317,9 @@ def c18(tier, seed):
     for k in range(0, 4):
         for n in range(k + 2, N + 2):
             jobs.append(job("HDollar", [n, k], safety=True, witness_every=10))
+    for first in range(8):
+        for n in range(1, N - 1):
+            jobs.append(job("HStrSecond", [n, first], safety=True, witness_every=20))
     c.run_group("U-literals", STR, jobs, expect_labels=["checked"])
     jobs = []
     for form in range(10):
